@@ -187,6 +187,24 @@ Example C20_dict_output_example :
     (NTable [(K 121, [VInt 10042; VInt 20042]); (K 122, [VInt 10053; VInt 20053])], [(K 121, [VInt 2; VInt 4]); (K 122, [VInt 3; VInt 5])]).
 Proof. vm_compute. auto. Qed.
 
+(* partially keyed inputs (an input carrying only some of the `on` columns; join docstring "joins with partial columns"):
+   one step of the defaults fold keeps every matched pair, and every row of either side that found no partner survives
+   carrying the other side's defaults - "keys a defaulted input lacks receive its default value", whatever the row counts.
+   The whole fold (pjoinP / perdictP) is tied to the code by the correspondence; this is the clause the fold is built from. *)
+Theorem C20_partial_keys_defaults_step d1 d2 f1 f2 :
+  exists m rows, fst (pouter (Some d1, f1) (Some d2, f2)) = Some (m, rows) /\
+    (forall r, In r (snd (pmul d1 d2)) -> In r rows) /\
+    (f2 <> [] -> forall r, In r (snd d1) ->
+       In (setdefs f2 r) rows \/ exists r2, In r2 (snd d2) /\ kmatch (fst d1) (fst d2) (fst r) (fst r2) = true) /\
+    (f1 <> [] -> forall r, In r (snd d2) ->
+       In (setdefs f1 r) rows \/ exists r1, In r1 (snd d1) /\ kmatch (fst d2) (fst d1) (fst r) (fst r1) = true).
+Proof.
+  destruct (pouter_rows d1 d2 f1 f2) as (m & rows & E & A & B & C). exists m, rows. split; [exact E|]. split; [exact A|]. split.
+  - intros N r I. destruct (panti_or_matched d1 d2 r I) as [X|X]; [left; apply B; auto | right; exact X].
+  - intros N r I. destruct (panti_or_matched d2 d1 r I) as [X|X]; [left; apply C; auto | right; exact X].
+Qed.
+Print Assumptions C20_partial_keys_defaults_step.
+
 (* non-vacuous: inner keys {y,z} of {x,y,z} x {y,z,w}; b with a default turns it into a left join;
    y is cached with a past expiry (kept, not called), z has a future expiry (recomputed once) *)
 Example C20_example :
